@@ -64,7 +64,8 @@ func TestC15(t *testing.T) {
 		{Stream: true},
 		// permission / channel timeouts that coincide with the allocation's expiry are Engine B's; here: staggered
 		{Lifetime: 100 * sec, Perm: 40 * sec, Chan: 70 * sec},
-		{Stream: true, Lifetime: 100 * sec, Perm: 40 * sec, Chan: 70 * sec},
+		// listener bound to the unspecified address: accepted connections have a concrete local address
+		{Stream: true, Wild: true, Lifetime: 100 * sec, Perm: 40 * sec, Chan: 70 * sec},
 	}
 	vtx.Explore(t, profile("c15-teardown", cfgs), r)
 }
